@@ -87,7 +87,7 @@ func init() {
 		Stubs: []string{"num.Amount.Rescale/Multiply/Divide: proven integer summaries (C05 layer 0 re-run first)", "currency.Get, tax.RegimeDefFor: native registry import (real ES tables)"},
 		Bounds: map[string][]string{
 			"quick":    {"2 taxable lines; per line one combo in category A (percent present or exempt, optional surcharge, extension none/v1/v2, country ''/XX; percent from {21.0, 10.0}, surcharge from {5.2, 1.4}) and optionally one in category B; totals symbolic |v| <= 2^36 with currency or currency+2 decimals; EUR; both rounding rules; with and without tax-included category A", "regime ES: 2 lines, VAT key from {standard, reduced, standard+eqs, exempt, zero} and optional retained IRPF"},
-			"thorough": {"2..3 lines; currencies EUR, JPY, BHD; percentages from {21.0, 10.0, 5.5}, surcharges from {5.2, 1.4}, every attribute combination on every line (fully symbolic percentage values left 68 obligations unknown after 30 minutes: not claimed)"},
+			"thorough": {"2..3 lines (the third a plain 10 % row with or without surcharge); currencies EUR, JPY, BHD; percentages from {21.0, 10.0, 5.5}, surcharges from {5.2, 1.4}; larger spaces were tried and are not claimed: every attribute combination on three lines (1.7 million paths explored clean in 24 minutes without finishing) and fully symbolic percentage values (68 obligations unknown)"},
 		},
 		Outside:     []string{"more than 3 lines / 2 combos per line", "document discounts and charges as taxable rows (same interface, covered through C01 skeletons)"},
 		Assumptions: []string{"amount arithmetic within the C05 domain", "go/ssa faithful; z3 sound"},
